@@ -359,3 +359,171 @@ def gen_extbound(rng):
         ops += [f"open 3 0 0 {hx(nm)} 1", "read 3 200000", "close 3"]
     ops += ["free 0 0"] + epilogue()
     return ops
+
+import re as _re
+def retarget(ops, part):
+    """rewrite body operations that address volume '0 0' to address partition `part` of device 0"""
+    out = []
+    for o in ops:
+        a = o.split()
+        if a[0] in ("mkdir", "remove", "rename", "comment", "access", "chdir", "parent", "toroot", "list", "free", "bootblock", "mount", "unmount", "bmbits"):
+            a[2] = str(part)
+        elif a[0] == "open":
+            a[3] = str(part)
+        out.append(" ".join(a))
+    return out
+
+def body_of(ops):
+    """strip prologue (up to and including the first mount) and epilogue(s) of a generated sequence"""
+    i = next(k for k, o in enumerate(ops) if o.startswith("mount ")) + 1
+    j = next((k for k in range(i, len(ops)) if ops[k].startswith("unmount ")), len(ops))
+    return ops[i:j]
+
+def gen_ro(rng):
+    """read-only profile: content is created writable, then every mutating call is attempted on
+    read-only device x read-only mount combinations; imghash before/after"""
+    dostype = rng.randrange(8)
+    kind = rng.choice(["dd", "dd", "hd", 4001])
+    ops = prologue(dostype, kind=kind, clock=(2013, 3, 4, 5, 6, 7))
+    ops += [f"mkdir 0 0 {hx(b'dir')}", f"open 1 0 0 {hx(b'file')} 2", "write 1 3000 4", "close 1",
+            f"open 1 0 0 {hx(b'big')} 2", f"write 1 {rng.choice([100, 40000])} 5", "close 1", f"comment 0 0 {hx(b'file')} {hx(b'note')}"]
+    ops += epilogue()
+    devro, volro = rng.choice([(1, 0), (1, 1), (0, 1)])
+    ops += ["imghash 0", f"opendev 0 {devro}", f"mount 0 0 {volro}"]
+    if dostype & 4 and rng.random() < 0.5: ops.append("usedirc 1")
+    attempts = [f"mkdir 0 0 {hx(b'new')}", f"remove 0 0 {hx(b'file')}", f"remove 0 0 {hx(b'dir')}",
+                f"rename 0 0 {hx(b'file')} {hx(b'other')}", f"rename 0 0 {hx(b'file')} {hx(b'moved')} / {hx(b'dir')}",
+                f"comment 0 0 {hx(b'file')} {hx(b'changed')}", f"access 0 0 {hx(b'file')} 3", f"access 0 0 {hx(b'dir')} 3",
+                f"open 2 0 0 {hx(b'file')} 2", f"open 2 0 0 {hx(b'file')} 3", f"open 2 0 0 {hx(b'brandnew')} 2",
+                "bootblock 0 0 7", f"open 3 0 0 {hx(b'file')} 1", "write 3 10 1", "trunc 3 5", "flush 3", "read 3 100", "close 3",
+                "list 0 0 1", "free 0 0", f"chdir 0 0 {hx(b'dir')}", "parent 0 0"]
+    rng.shuffle(attempts)
+    # keep handle ops in order
+    h3 = [a for a in attempts if a.split()[1] == "3" or a.startswith("open 3")]
+    attempts = [a for a in attempts if a not in h3]
+    k = rng.randrange(len(attempts) + 1)
+    ops += attempts[:k] + [f"open 3 0 0 {hx(b'file')} 1", "write 3 10 1", "trunc 3 5", "flush 3", "read 3 100", "close 3"] + attempts[k:]
+    ops += ["unmount 0 0", "closedev 0", "imghash 0"]
+    return ops
+
+def rdb_layout(rng):
+    heads = rng.choice([1, 2, 4]); secs = rng.choice([8, 11, 17, 32])
+    cyl = rng.randint(3520 // (heads * secs) + 40, 3520 // (heads * secs) + 400)
+    nparts = rng.randint(1, 4)
+    cuts = sorted(rng.sample(range(3, cyl - 1), min(nparts * 2 - 1, cyl - 5)))
+    parts = []
+    start = 2
+    avail = cyl - 2
+    for i in range(nparts):
+        minlen = (16 + heads * secs - 1) // (heads * secs) + 1
+        remaining = nparts - i - 1
+        maxlen = avail - remaining * minlen
+        if maxlen < minlen: break
+        ln = rng.randint(minlen, max(minlen, min(maxlen, avail // (remaining + 1) + 3)))
+        gap = rng.choice([0, 0, 1]) if avail - ln - remaining * minlen > 1 else 0
+        parts.append((start + gap, ln, b"part%d" % i, rng.randrange(8)))
+        start += gap + ln; avail -= gap + ln
+    return cyl, heads, secs, parts
+
+def gen_rdb(rng):
+    """partitioned disk: 1..4 partitions of random valid cylinder ranges; a namespace/file history on one of
+    them; images before/after for the byte comparison of everything outside that partition"""
+    cyl, heads, secs, parts = rdb_layout(rng)
+    ops = [f"newdev 0 {cyl} {heads} {secs}", "clock 2014 4 5 6 7 8",
+           "mkhd 0 %d " % len(parts) + " ".join(f"{s} {l} {hx(n)} {t}" for s, l, n, t in parts),
+           "closedev 0", "opendev 0 0"]
+    k = rng.randrange(len(parts))
+    ops += [f"mount 0 {k} 0", "imghash 0"]
+    dt = parts[k][3]
+    sub = random.Random(rng.random())
+    body = body_of(gen_names(sub, nops=25, dostype=dt)) if rng.random() < 0.5 else body_of(gen_file(sub, nops=25, dostype=dt & 5, kind="dd"))
+    ops += retarget(body, k)
+    ops += [f"unmount 0 {k}"]
+    # touch another partition lightly too
+    if len(parts) > 1:
+        j = (k + 1) % len(parts)
+        ops += [f"mount 0 {j} 0", f"mkdir 0 {j} {hx(b'x')}", f"list 0 {j} 0", f"free 0 {j}", f"unmount 0 {j}"]
+    ops += ["closedev 0", "opendev 0 1"]
+    for j in range(len(parts)): ops += [f"mount 0 {j} 1", f"free 0 {j}", f"list 0 {j} 1", f"unmount 0 {j}"]
+    ops += ["closedev 0"]
+    return ops
+
+def gen_geom(rng, size=None, dostype=None):
+    """format/mount round trip for one geometry"""
+    dostype = rng.randrange(8) if dostype is None else dostype
+    name = bytes(rng.choice(range(0x41, 0x5b)) for _ in range(rng.choice([0, 1, 5, 29, 30, 31, 40]))) or b""
+    r = rng.random()
+    if size is None and r < 0.15:
+        kind = rng.choice(["dd", "hd"])
+        ops = [f"newdev 0 80 2 {11 if kind == 'dd' else 22}", "clock 2015 5 6 7 8 9", f"mkflop 0 {hx(name)} {dostype}"]
+    elif size is None and r < 0.45:
+        cyl, heads, secs, parts = rdb_layout(rng)
+        ops = [f"newdev 0 {cyl} {heads} {secs}", "clock 2015 5 6 7 8 9",
+               "mkhd 0 %d " % len(parts) + " ".join(f"{s} {l} {hx(n)} {t}" for s, l, n, t in parts)]
+        ops += ["closedev 0", "opendev 0 0"]
+        for j in range(len(parts)):
+            ops += [f"mount 0 {j} 0", f"free 0 {j}", f"list 0 {j} 1", f"bmbits 0 {j}", f"mkdir 0 {j} {hx(b'd')}", f"free 0 {j}", f"unmount 0 {j}"]
+        return ops + ["dumpimg 0 @DUMP0@", "closedev 0"]
+    else:
+        if size is None:
+            k = rng.choice([1, 1, 2, 3, 5, 24, 25, 26, 27])
+            size = max(3521, k * 4064 + 2 + rng.choice([-2, -1, 0, 1, 2, 3]) + rng.choice([0, 0, 0, 1]))
+            if rng.random() < 0.3: size = rng.randint(3521, 120000)
+        ops = [f"newdev 0 {size} 1 1", "clock 2015 5 6 7 8 9", f"mkhdf 0 {hx(name)} {dostype}"]
+    ops += ["closedev 0", "opendev 0 0", "mount 0 0 0", "free 0 0", "list 0 0 1", "bmbits 0 0",
+            f"mkdir 0 0 {hx(b'd')}", f"open 1 0 0 {hx(b'f')} 2", "write 1 2000 3", "close 1", "free 0 0", "unmount 0 0", "dumpimg 0 @DUMP0@", "closedev 0"]
+    return ops
+
+def gen_namepairs(rng, dostype=None, pairs=None, n=60):
+    """name-matching profile: create N, probe with M (open for reading, duplicate mkdir, rename onto), list, remove"""
+    dostype = rng.randrange(8) if dostype is None else dostype
+    ops = prologue(dostype, clock=(2017, 7, 8, 9, 10, 11))
+    if pairs is None:
+        pairs = []
+        alphabet = [c for c in range(1, 256) if c not in (0x2f, 0x3a)]
+        for _ in range(n):
+            ln = rng.choice([1, 1, 2, 3, 8, 29, 30, 31, 32, 36, 40])
+            N = bytes(rng.choice(alphabet) for _ in range(ln))
+            r = rng.random()
+            if r < 0.3: M = bytes((c ^ 0x20) if rng.random() < 0.5 and (c ^ 0x20) not in (0, 0x2f, 0x3a) else c for c in N)
+            elif r < 0.45: M = N[:30]
+            elif r < 0.6: M = N[:30] + bytes(rng.choice(alphabet) for _ in range(rng.randint(1, 5)))
+            elif r < 0.75:
+                i = rng.randrange(len(N)); M = N[:i] + bytes([rng.choice(alphabet)]) + N[i+1:]
+            elif r < 0.85: M = N[:-1] if len(N) > 1 else N + b"x"
+            else: M = bytes(rng.choice(alphabet) for _ in range(ln))
+            pairs.append((N, M))
+    for N, M in pairs:
+        kind = rng.random() < 0.5
+        if kind: ops += [f"open 1 0 0 {hx(N)} 2", "write 1 3 1", "close 1"]
+        else: ops.append(f"mkdir 0 0 {hx(N)}")
+        ops += [f"open 2 0 0 {hx(M)} 1", "close 2", f"chdir 0 0 {hx(M)}", "toroot 0 0",
+                f"mkdir 0 0 {hx(M)}", "list 0 0 0", f"open 2 0 0 {hx(N[:30])} 1", "close 2",
+                f"open 3 0 0 {hx(b'other')} 2", "close 3", f"rename 0 0 {hx(b'other')} {hx(M)}", "list 0 0 0",
+                f"remove 0 0 {hx(M)}", f"remove 0 0 {hx(N)}", f"remove 0 0 {hx(b'other')}", "list 0 0 0"]
+    return ops + epilogue()
+
+def image_ops(kids, rng, dirc=False, path="@IMG@", nreads=3, dev="dd"):
+    """read-path operations over an image built by imgwriter from `kids`"""
+    ops = [f"loadimg 0 {path}", "opendev 0 1", "mount 0 0 1", "list 0 0 1"]
+    if dirc: ops += ["usedirc 1", "list 0 0 1", "usedirc 0"]
+    flat = iw.flatten(kids)
+    for p, node in flat:
+        nav = ["toroot 0 0"] + [f"chdir 0 0 {hx(c)}" for c in p[:-1]]
+        if node.kind == 'file':
+            ops += nav + [f"open 1 0 0 {hx(p[-1])} 1", "read 1 300000"]
+            sz = len(node.data)
+            for _ in range(nreads):
+                off = rng.choice([0, 1, 487, 488, 511, 512, sz // 2, max(0, sz - 1), sz, sz + 5, 72 * 488, 72 * 512]) if rng.random() < 0.6 else rng.randrange(0, sz + 2)
+                ln = rng.choice([0, 1, 488, 512, 1000, sz]) if rng.random() < 0.6 else rng.randrange(0, sz + 10)
+                ops += [f"seek 1 {off}", f"read 1 {ln}"]
+            ops += ["stat 1", "close 1"]
+        elif node.kind == 'dir':
+            ops += nav + [f"chdir 0 0 {hx(p[-1])}", "list 0 0 0", "parent 0 0"]
+        elif node.kind == 'hlink':
+            if node.target.kind == 'file': ops += nav + [f"open 1 0 0 {hx(p[-1])} 1", "read 1 300000", "close 1"]
+            else: ops += nav + [f"chdir 0 0 {hx(p[-1])}", "list 0 0 0"]
+        else:
+            ops += nav + [f"open 1 0 0 {hx(p[-1])} 1", f"chdir 0 0 {hx(p[-1])}"]
+    ops += ["toroot 0 0", "free 0 0", "unmount 0 0", "closedev 0"]
+    return ops
